@@ -8,6 +8,7 @@
 //!   dest <c0> <kind 0 add|1 remove|2 add rcv|3 remove rcv> <registration id> <ck> <cn>
 //!   counter <c0> <type id> <kk> <kn> <lk> <ln>   key = payload(kk, kn), label = chars(lk, ln)
 //!   keepalive <c0> | close <c0>
+//!   hugeterm <c0> <tn>                           token = tn zero bytes (tn up to 2^33)
 //!   terminate <c0> <tk> <tn>                     token = payload(tk, tn)
 //! observation:
 //!   (result, raw records, records delivered by read, tail, next correlation id)
@@ -140,6 +141,8 @@ fn call(px: &DriverProxy, a: &[&str]) -> Result<i64, AeronError> {
         "keepalive" => px.send_client_keepalive().map(|_| 0),
         "close" => px.client_close(),
         "terminate" => px.terminate_driver(&blob(p(a[1]), p(a[2]))).map(|_| 0),
+        // a token of 2^31 .. 2^32 bytes and more: zero-filled, never touched by a proxy that rejects it (the pages stay virtual)
+        "hugeterm" => px.terminate_driver(&vec![0u8; p(a[1]) as usize]).map(|_| 0),
         other => panic!("unknown case kind {}", other),
     }
 }
